@@ -49,7 +49,11 @@ structure Quirks where
   staticNotInherited : Bool := true
   deriving Repr, Inhabited
 
-def Quirks.impl : Quirks := {}
+/-- the interpreter as it is (repaired since the first version of this record: the call output window and the call value
+    seen by a STATICCALL callee).  The stack limit stays a recorded deviation: Burrow's `DataStackMaxDepth` option cannot
+    enforce it, because the gas functions read their operands with `Dup` + `Pop` (vm/utils.go `GetWord256`) and so overflow
+    a stack of exactly 1024 words, which the specification allows. -/
+def Quirks.impl : Quirks := { callOutputWindow := false, staticCallValue := false }
 def Quirks.spec : Quirks :=
   { readBeyondErr := false, dataOffsetU64 := false, zeroLenGrows := false, noStackLimit := false, hugeOffsetNotOog := false,
     childExceptionAborts := false, callUnknownErr := false, callOutputWindow := false, queryUnknownErr := false,
@@ -69,7 +73,7 @@ def devName : Nat → String
 def hugeCost : Nat := 2 ^ 200
 
 structure Env where
-  q : Quirks := {}
+  q : Quirks := Quirks.impl
   code : ByteArray
   opBits : ByteArray
   input : ByteArray
@@ -585,7 +589,7 @@ def callFromSite (child : ChildFn) (env : Env) (op gasLimit target value : Nat) 
     callee := if op == 0xf1 || op == 0xfa then target else env.callee,
     callType := if op == 0xf1 then 0 else if op == 0xf2 then 1 else if op == 0xf4 then 2 else 3,
     readOnly := op == 0xfa || (env.readOnly && !env.q.staticNotInherited) }
-  if op == 0xfa && !env.q.staticCallValue && value != 0 then noteDev 12
+  if op == 0xfa && !env.q.staticCallValue && Quirks.impl.staticCallValue && value != 0 then noteDev 12   -- (repaired: no longer a deviation)
   let r := child cenv targetGas w s.removed
   orSeen r.seen r.dev r.devs
   if r.status != 0 then return { status := if r.status == 3 then 2 else r.status }
@@ -626,7 +630,7 @@ def callRest (child : ChildFn) (env : Env) (op gasLimit : Nat) : M Ctl := do
       match r.err with
       | some .executionReverted | none =>
         if !env.q.callOutputWindow then
-          if r.ret.size != retSize then noteDev 9
+          if r.ret.size != retSize && Quirks.impl.callOutputWindow then noteDev 9   -- (repaired: no longer a deviation)
           memWrite env.q retOff (r.ret.extract 0 (min retSize r.ret.size))
         else if retSize < 2 ^ 63 && retSize > r.ret.size && retSize > memCap then memWriteBig retOff retSize
         else memWrite env.q retOff (rightPad r.ret retSize)
